@@ -98,6 +98,10 @@ def run(ctx):
     for cfg in (CONFIGS_QUICK if ctx.tier == "quick" else CONFIGS_THOROUGH):
         crate = ctx.crate(cfg)
         rep.ob("C15.borrow", "%s|forbid-unsafe" % cfg, crate.raw.get("unsafe_code_level") == "Forbid", "#![forbid(unsafe_code)] is in force for the crate", found=crate.raw.get("unsafe_code_level"))
+        # "identical complete output for deterministic signature schemes (Ed25519, RSA PKCS#1 v1.5)": the RSA rows of the
+        # algorithm table carry the PKCS#1 v1.5 encodings (a PSS constant would randomise the signature)
+        import c01
+        common.borrow_rules(rep, lambda: c01.check_table(cfg, crate, rep), "C01.", "C15.table")
         n = 0
         for fn, want in ENTRY.items():
             b = crate.bodies.get(fn)
